@@ -175,6 +175,10 @@ enum DsOp {
     Remove(usize, usize),
     ViewInsert(usize, usize),
     ViewRemove(usize, usize),
+    /// d.graph_mut(g).remove_matching([subject of t], Any, Any)
+    ViewRemoveMatching(usize, usize),
+    /// d.graph_mut(g).retain_matching([subject of t], Any, Any)
+    ViewRetainMatching(usize, usize),
 }
 
 fn ds_ops() -> Vec<DsOp> {
@@ -185,6 +189,17 @@ fn ds_ops() -> Vec<DsOp> {
             v.push(DsOp::Remove(t, g));
             v.push(DsOp::ViewInsert(t, g));
             v.push(DsOp::ViewRemove(t, g));
+        }
+    }
+    // bulk mutations through the single-graph view, one per distinct subject
+    let ts = triples();
+    for t in 0..ts.len() {
+        if (0..t).any(|u| ts[u][0] == ts[t][0]) {
+            continue;
+        }
+        for g in 0..gnames().len() {
+            v.push(DsOp::ViewRemoveMatching(t, g));
+            v.push(DsOp::ViewRetainMatching(t, g));
         }
     }
     v
@@ -209,6 +224,8 @@ macro_rules! ds_model {
                     DsOp::Remove(t, g) => format!("d.remove({})", f(*t, *g)),
                     DsOp::ViewInsert(t, g) => format!("d.graph_mut(g).insert({})", f(*t, *g)),
                     DsOp::ViewRemove(t, g) => format!("d.graph_mut(g).remove({})", f(*t, *g)),
+                    DsOp::ViewRemoveMatching(t, g) => format!("d.graph_mut({}).remove_matching([{}], Any, Any)", gs[*g].as_ref().map(|g| g.nq()).unwrap_or("DEFAULT".into()), ts[*t][0].nq()),
+                    DsOp::ViewRetainMatching(t, g) => format!("d.graph_mut({}).retain_matching([{}], Any, Any)", gs[*g].as_ref().map(|g| g.nq()).unwrap_or("DEFAULT".into()), ts[*t][0].nq()),
                 }
             }
             fn fresh(&self) -> Self::Sys {
@@ -218,11 +235,49 @@ macro_rules! ds_model {
                 let ts = triples();
                 let gs = gnames();
                 let op = ds_ops()[op].clone();
+                if let DsOp::ViewRemoveMatching(t, g) | DsOp::ViewRetainMatching(t, g) = op {
+                    let retain = matches!(op, DsOp::ViewRetainMatching(..));
+                    let subj = ts[t][0].clone();
+                    let sm = [subj.to_simple()];
+                    let gn: Option<ST> = gs[g].as_ref().map(|g| g.to_simple());
+                    // reference: inside graph g, drop the quads whose subject is (remove) / is not (retain) `subj`
+                    let doomed = |q: &AQuad| q.1 == gs[g] && ((q.0[0] == subj) != retain);
+                    // twin: the same effect through direct single-quad removals
+                    let victims: Vec<AQuad> = sys.r.iter().filter(|q| doomed(q)).cloned().collect();
+                    for q in &victims {
+                        let ([s, p, o], gq) = to_squad(q);
+                        let _ = MutableDataset::remove(&mut sys.b, &s, &p, &o, gq.as_ref());
+                    }
+                    let fa: Result<usize, String> = {
+                        let mut v = sys.a.graph_mut(gn.clone());
+                        if retain {
+                            MutableGraph::retain_matching(&mut v, sm.clone(), Any, Any).map(|_| victims.len()).map_err(|e| e.to_string())
+                        } else {
+                            MutableGraph::remove_matching(&mut v, sm.clone(), Any, Any).map_err(|e| e.to_string())
+                        }
+                    };
+                    sys.r.retain(|q| !doomed(q));
+                    if check {
+                        if fa != Ok(victims.len()) && $is_set {
+                            out.push((format!("{}:view-bulk-mutation-count", $label), format!("{}: returned {:?}, {} statements match", self.op_name_of(&op), fa, victims.len())));
+                        }
+                        let qa = all_quads(&sys.a);
+                        let qb = all_quads(&sys.b);
+                        if qa != qb {
+                            out.push((
+                                format!("{}:view-bulk-mutation-differs-from-direct", $label),
+                                format!("{}: store after the mutation through the view {:?} differs from the store after the equivalent direct removals {:?}", self.op_name_of(&op), qa, qb),
+                            ));
+                        }
+                    }
+                    return true;
+                }
                 let (t, g, ins, view) = match op {
                     DsOp::Insert(t, g) => (t, g, true, false),
                     DsOp::Remove(t, g) => (t, g, false, false),
                     DsOp::ViewInsert(t, g) => (t, g, true, true),
                     DsOp::ViewRemove(t, g) => (t, g, false, true),
+                    _ => unreachable!(),
                 };
                 let [s, p, o] = [ts[t][0].to_simple(), ts[t][1].to_simple(), ts[t][2].to_simple()];
                 let gn: Option<ST> = gs[g].as_ref().map(|g| g.to_simple());
@@ -757,7 +812,7 @@ pub fn run(tier: Tier) -> Report {
     run_model(&BtGr, "BTreeSet<[T;3]>", dg, &mut rep);
     run_model(&VecGr, "Vec<[T;3]>", tier.pick(3, 4), &mut rep);
     rep.rule = format!(
-        "explicit-state BFS over operation histories (direct and through-view insert/remove of {} triples x {} graph names; graphs: direct and as_dataset_mut with default/named graph) on 9 store types, every reachable state deduplicated by canonical content + term-index order; in each state every view (graph(g) for 5 names incl. an absent one, union_graph, 8 partial_union_graph matchers, as_dataset, into_dataset) is compared with the projection of the reference under {} triple patterns; a state is non-trivial when it is not the empty store",
+        "explicit-state BFS over operation histories (direct and through-view insert/remove of {} triples x {} graph names, remove_matching/retain_matching by subject through every single-graph view; graphs: direct and as_dataset_mut with default/named graph) on 9 store types, every reachable state deduplicated by canonical content + term-index order; in each state every view (graph(g) for 5 names incl. an absent one, union_graph, 8 partial_union_graph matchers, as_dataset, into_dataset) is compared with the projection of the reference under {} triple patterns; a state is non-trivial when it is not the empty store",
         triples().len(),
         gnames().len(),
         patterns().len()
